@@ -65,6 +65,16 @@ class LogixScenario:
         self.path = self.host if slot == 0 else f"{self.host}/{slot}"
         self.drv = pycomm3.LogixDriver(self.path, init_program_tags=init_program_tags)
         self.opened = None
+        self.touched = False
+        if open_driver and rng.random() < 0.3:
+            # a caller may look at a driver before opening it (logging its state, a GUI showing defaults): reading the documented
+            # accessors of an unopened driver changes nothing about what open() and later calls do
+            for a_ in ("revision_major", "info", "name", "tags", "data_types", "connected", "connection_size", "tags_json"):
+                try:
+                    getattr(self.drv, a_)
+                except Exception:  # noqa
+                    pass
+            self.touched = True
         if open_driver:
             # open() moves the symbol list and the templates (tens of kilobytes at most), never the tags' data: its own, smaller budget,
             # so that a driver that loops in open() is stopped after seconds, not minutes
